@@ -11,11 +11,12 @@ TRUSTED = [
     "context hooks are anonymous in observed traces (a hook command does not know its run): per-run attribution is checked by counting prefixes (Corr/CtxCorr.v prefix_ok); sequential plans are compared token by token with the model",
     "Go engine taskrun, python driver, the built binary",
 ]
-ASSUMPTIONS = ["each context has one up / down / before / after command (the code runs lists of them in order)"]
+ASSUMPTIONS = ["each context has three up commands (a failure is the middle one's) and one down / before / after command"]
 
 
 def mk_ctx(c, up_ok=True, cb_ok=True):
-    return {"up": ['echo upb.%d >> "$TRACE"; sleep 0.03; echo upe.%d >> "$TRACE"; exit %d' % (c, c, 0 if up_ok else 3)],
+    # several up commands: all of them run; the start-up failed if ANY of them failed (here the middle one), not only the last
+    return {"up": ['echo upb.%d >> "$TRACE"' % c, "exit %d" % (0 if up_ok else 3), 'sleep 0.03; echo upe.%d >> "$TRACE"' % c],
             "down": ['echo down.%d >> "$TRACE"' % c],
             "before": ['echo cb.%d >> "$TRACE"; exit %d' % (c, 0 if cb_ok else 4)],
             "after": ['echo ca.%d >> "$TRACE"' % c], "env": {"CTXN": str(c)}}
